@@ -18,7 +18,7 @@ LEVEL_NOTE = ("Trusted: the seam interposes the libc entry points listed in DESI
 RULE = ("case = generated project x configuration point; one fault-free --check run plus one run per sampled/enumerated "
         "(operation k, action) with action in {fail errno, short, eintr, kill_before, kill_after, sig_before, sig_after}. "
         "Non-trivial = run with a fired fault or a distinct configuration point; distinct = (world, k, action, errno).")
-PROBES = ["tmpdir_missing", "lock_corrupt", "lock_valid", "cache_off", "error_config", "no_missing_refs", "fault_fired", "killed", "signalled"]
+PROBES = ["stdout_closed", "tmpdir_missing", "lock_corrupt", "lock_valid", "cache_off", "error_config", "no_missing_refs", "fault_fired", "killed", "signalled"]
 ASSUMPTIONS = ["stat/open-for-read/readdir are not modifications"]
 DEADLINE = {"quick": 200, "thorough": 3000}
 
@@ -86,7 +86,7 @@ def evaluate(wm, knobs, plan, ctx, phase="none"):
     run = scen.exec_run(wm, True, plan, knobs, ctx)
     res = run["res"]
     f0 = plan["faults"][0] if plan["faults"] else None
-    fcls = scen.fault_class(f0) if f0 else "none"
+    fcls = scen.fault_class(f0) if f0 else ("stdout-closed" if plan.get("stdout_fail") else "none")
     digest = hashlib.sha256((res.trace_digest() + core.digest_world(run["after"])).encode()).hexdigest()
     scenario = {"wm": world.wm_to_json(wm), "knobs": knobs, "plan": plan, "phase": phase}
     viols = []
@@ -124,6 +124,14 @@ def run_case(rng, idx, tier, ctx):
         ctx.samples.append({"tags": tags, "cfg": wm["cfg"], "knobs": knobs, "ops": [o.short() for o in ops][:40],
                             "first_plans": [p["faults"] for p in plans[:4]]})
     K = len(ops)
+    # the reader of the output goes away (breadlog --check | head): every write to stdout/stderr fails from the n-th on
+    for n in ([1, rng.randrange(2, 12)] if tier == "quick" else [1, 2, 3, 4, 5, 6, 8, 10, 15, 25]):
+        plan = {"seed": base["seed"], "perm": True, "faults": [], "stdout_fail": n}
+        vs, res = evaluate(wm, knobs, plan, ctx, "stdout-closed")
+        if res.stdout_failed:
+            ctx.probes["stdout_closed"] += 1
+            ctx.nontrivial.add("%d.stdout.%d" % (idx, n))
+        viols += vs
     for plan in plans:
         f0 = plan["faults"][0]
         ph = scen.phase_of(phm, f0["k"], K)
